@@ -48,3 +48,12 @@ Example C07_rollout_example :
   let cols := [[s 1 0 (1 # 2) 1; s 0 (1 # 2) 2 0]; [s 2 1 0 1]] in
   mb_columns_exec (1 # 2) 1 cols [(1, 0); (0, 1); (0, 0)]%nat = ([-(1 # 2); 1; 1], ([0; 2; 1], [1 # 2; 1; 0])).
 Proof. vm_compute. reflexivity. Qed.
+
+(* the A2C minibatch twin feeds a2c_batch_Q the same columns: GAE advantages (optionally normalised) and
+   return = advantage + value of the rollout cells *)
+Theorem C07_minibatch_twin_a2c : forall ec vc he norm std g l cols cells lps vs ents,
+  a2c_minibatch_Q ec vc he norm std g l cols cells lps vs ents =
+  a2c_batch_Q ec vc he (maybe_norm norm std (fst (mb_columns_exec g l cols cells))) lps
+    (fst (snd (mb_columns_exec g l cols cells))) vs ents.
+Proof. exact a2c_minibatch_unfold. Qed.
+Print Assumptions C07_minibatch_twin_a2c.
